@@ -18,6 +18,12 @@ import HtpModel.Lemmas.Segment
 import HtpModel.Lemmas.CursorInv
 import HtpModel.Lemmas.BufInv
 import HtpModel.Lemmas.OutInv
+import HtpModel.Lemmas.CFunsCmp
+import HtpModel.Lemmas.CFunsSearch
+import HtpModel.Lemmas.CFunsLine
+import HtpModel.Lemmas.CFunsNum
+import HtpModel.Lemmas.CFunsNormalize
+import HtpModel.Lemmas.CFunsRing
 
 namespace Htp.C01
 open Htp Htp.Conn Htp.Gen Htp.Decode
@@ -120,5 +126,38 @@ theorem C01_res_call_cursors_in_chunk (cfg : Cfg) (fuel : Nat) (d : Bytes) (c : 
     (ho : ∀ c', CallReachO cfg (resStoreChunk (some d) d.length c) c' → OwedOKO c') :
     WFO (resDriverLoop cfg false fuel (resStoreChunk (some d) d.length c)).1.out :=
   (resDriverLoop_wfbo cfg fuel _ _ CallReachO.start (wfbo_resStoreChunk _ d c hs hb) ho).1
+
+/-- **C01 (the code itself: no read or write outside the buffers handed in)**: in the semantics of the translated C functions
+    (`HtpModel/CSem.lean`) a read `p[i]` or a write outside the array the caller handed in is UNDEFINED (`none`), and so is a loop that
+    does not finish within its fuel. Each conjunct says that the function, translated from the current source, is DEFINED on every input
+    (arrays below 2^63 bytes, exact lengths): the comparison, the nested search loop, htp_chomp reading from the end of the buffer
+    (`data[*len - 1]`), the number parser, and the in-place dot-segment remover, which reads and WRITES one shared buffer. These are
+    corollaries of the equalities with the model (C17_translated_*, C12_translated_normalize); they are the part of C01 that is proved about
+    the code rather than observed under the sanitizers. -/
+theorem C01_translated_reads_in_bounds (d1 d2 : Bytes) (h1 : d1.length < 2147483648) (h2 : d2.length < 2147483648) :
+    (Htp.Gen.C.bstr_util_cmp_mem (d1.length + 1) d1 d2 d1.length d2.length).isSome ∧
+    (Htp.Gen.C.bstr_util_mem_index_of_mem (d1.length + 1) d1 d2 d1.length d2.length).isSome ∧
+    (Htp.Gen.C.htp_chomp (d1.length + 1) d1 d1.length).isSome ∧
+    (Htp.Gen.C.htp_parse_positive_integer_whitespace (d1.length + 1) d1 d1.length 10).isSome ∧
+    (Htp.Gen.C.htp_normalize_uri_path_inplace (2 * d1.length + 3) (Htp.CSem.memOf d1) d1.length).isSome := by
+  have some_of_map : ∀ {α β : Type} {o : Option α} {f : α → β} {v : β}, o.map f = some v → o.isSome := by
+    intro α β o f v h; cases o with
+    | none => simp at h
+    | some _ => rfl
+  refine ⟨some_of_map (Htp.CFuns.bstr_util_cmp_mem_eq d1 d2 (by omega) (by omega) _ (Nat.lt_succ_self _)),
+          some_of_map (Htp.CFuns.bstr_util_mem_index_of_mem_eq d1 d2 (by omega) _ (Nat.lt_succ_self _)),
+          some_of_map (Htp.CFuns.htp_chomp_eq d1 (by omega) _ (Nat.lt_succ_self _)),
+          some_of_map (Htp.CFuns.htp_parse_positive_integer_whitespace_eq' d1 10 (by omega) _ (Nat.lt_succ_self _)), ?_⟩
+  obtain ⟨s', hs, _⟩ := Htp.CFuns.htp_normalize_uri_path_inplace_eq d1 (by omega) (2 * d1.length + 3) (by omega)
+  rw [hs]; rfl
+
+/-- **C01 (ring buffer of the code itself)**: every slot index the translated htp_list_array_* functions compute - `first + idx`, the
+    wrapped `idx - (max_size - first)`, `last`, `(first + idx) % max_size`, the two memcpy ranges of the growth step - is inside `elements`
+    for every operation sequence from `htp_list_array_create(n)`: the run is defined (no out-of-bounds slot access is reached) and ends in
+    a well-formed ring. -/
+theorem C01_translated_ring_in_bounds (n : Nat) (hn : 0 < n) (ops : List Htp.CFuns.COp) (hK : n + ops.length < 2305843009213693952) :
+    ∃ f, (Htp.CFuns.runC (Htp.CFuns.fieldsOf (Htp.Ring.create n)) ops).map (·.1) = some f ∧ Htp.Ring.WF (Htp.CFuns.ringOf f) := by
+  obtain ⟨f, h1, h2, _⟩ := Htp.CFuns.cring_sim_fresh n hn ops (fun _ _ => by unfold Htp.CFuns.COp.ok; split <;> trivial) hK
+  exact ⟨f, by rw [h1]; rfl, h2⟩
 
 end Htp.C01
